@@ -116,6 +116,11 @@ static void store64(Ctx& c, Rng& r) {
 static void strings(Ctx& c, Rng& r) {
   size_t maxlen = std::min<size_t>(kMaxStringLength, r.chance(1, 6) ? 6000 : 100);
   std::string lit = r.chance(1, 3) ? gen_int_literal(r, true) : gen_literal(r, maxlen, false);
+  if (r.chance(1, 12)) {   // few significant digits with an exponent at the edges of the float and double ranges
+    static const int edge[] = {36, 37, 38, 39, 40, 44, 45, -36, -37, -38, -39, -44, -45, 22, 23, 300, 305, -300, -305};
+    char buf[48]; snprintf(buf, sizeof buf, "%s%d%s%de%d", r.coin() ? "-" : "", (int)r.range(1, 99), r.coin() ? "." : "", (int)r.below(100000), r.pick(edge));
+    lit = buf; if (lit.find(".") != std::string::npos && lit[lit.find(".") + 1] == 'e') lit.insert(lit.find(".") + 1, "0");
+  }
   if (lit.size() > kMaxStringLength) return;
   LitInfo li = analyse_literal(lit);
   AJ::JsonDocument doc;
@@ -145,6 +150,20 @@ static void strings(Ctx& c, Rng& r) {
   judge("int64_t", -9223372036854775808.0L, 9223372036854775807.0L, var.as<int64_t>(), 0, true);
   judge("uint64_t", 0, 18446744073709551615.0L, 0, var.as<uint64_t>(), false);
   if (var.is<int>() || var.is<double>()) c.violation("string-conversion", "is<int>()/is<double>() true for a string value", wit);
+  // floating-point targets: the nearest representable value (judged with C12's 1e-6 bound; 1e-5 for a 32-bit JsonFloat), never an infinity for a finite in-range number
+  {
+    long double a = fabsl(v);
+    double gd = var.as<double>(); float gf = var.as<float>();
+    double tol = kUseDouble ? 1e-6 : 1e-5;
+    long double dlo = kUseDouble ? 1e-300L : 1.2e-37L, dhi = kUseDouble ? 1e300L : 3.3e38L;
+    if (a == 0 || (a >= dlo && a <= dhi)) {
+      if (std::isinf(gd) || gd != gd || fabsl((long double)gd - v) > tol * a) c.violation("string-conversion", "as<double>() = " + std::to_string(gd) + " for a string denoting " + std::to_string((double)v), wit);
+      c.count("string_to_double_checks");
+    }
+    if (a == 0 || (a >= 1.2e-37L && a <= 3.3e38L)) {
+      if (std::isinf(gf) || gf != gf || fabsl((long double)gf - v) > tol * a) c.violation("string-conversion", "as<float>() = " + std::to_string(gf) + " for a string denoting " + std::to_string((double)v), wit);
+    }
+  }
   c.outcome(linked ? "string-linked" : "string-copied");
   doc.clear();
   free(blk);
